@@ -166,7 +166,7 @@ pub fn c09(args: &[String]) -> i32 {
                 let kind = format!("{kind}{}", if key_collision(&keys, &t) { ":key-collision" } else { "" });
                 println!("FINDING {kind} bundle=({}) rendered={t:?} parsed={:?}", seg_toks(s), w.sylls.iter().flat_map(|x| x.segs.iter().map(seg_toks)).collect::<Vec<_>>());
             } else { ok_space.push(*s); },
-            Out::Err(e) => println!("FINDING c09-seg-rejected:{} bundle=({}) rendered={t:?}", err_kind(&e).split('.').nth(1).unwrap_or("?"), seg_toks(s)),
+            Out::Err(e) => println!("FINDING c09-seg-rejected:{}{} bundle=({}) rendered={t:?}", err_kind(&e).split('.').nth(1).unwrap_or("?"), if key_collision(&keys, &t) { ":key-collision" } else { "" }, seg_toks(s)),
             o => println!("FINDING c09-seg-parse-outcome bundle=({}) rendered={t:?} outcome={}", seg_toks(s), o.class()),
         }
     }
@@ -179,16 +179,17 @@ pub fn c09(args: &[String]) -> i32 {
         let Out::Ok(t) = guarded(|| verif::render_word(&w, &[])) else { println!("FINDING c09-render-outcome word={}", word_flat(&w, false)); continue };
         if t.contains('\u{FFFD}') { skipped += 1; continue }
         wn += 1;
+        let parts_of = |w: &WordS| -> Vec<String> { w.sylls.iter().flat_map(|sy| { let mut v: Vec<String> = Vec::new(); let mut prev: Option<SegS> = None;
+                    for g in &sy.segs { if prev == Some(*g) { v.push("ː".into()) } else { v.push(render_seg(*g).ok().unwrap_or_default()) } prev = Some(*g); } v.push("|".into()); v }).collect() };
         match guarded(|| verif::parse_word(&t, &[])) {
             Out::Ok(p) => if p != w {
                 let segs = |x: &WordS| x.sylls.iter().flat_map(|s| s.segs.clone()).collect::<Vec<_>>();
                 let kind = if segs(&p) != segs(&w) { "c09-word-resegmented" } else { "c09-word-prosody" };
-                let parts: Vec<String> = w.sylls.iter().flat_map(|sy| { let mut v: Vec<String> = Vec::new(); let mut prev: Option<SegS> = None;
-                    for g in &sy.segs { if prev == Some(*g) { v.push("ː".into()) } else { v.push(render_seg(*g).ok().unwrap_or_default()) } prev = Some(*g); } v.push("|".into()); v }).collect();
+                let parts = parts_of(&w);
                 let kind = format!("{kind}{}", if concat_collision(&keys, &parts) { ":concat-collision" } else { "" });
                 println!("FINDING {kind} rendered={t:?} word={}", word_flat(&w, false));
             },
-            Out::Err(e) => println!("FINDING c09-word-rejected:{} rendered={t:?}", err_kind(&e).split('.').nth(1).unwrap_or("?")),
+            Out::Err(e) => println!("FINDING c09-word-rejected:{}{} rendered={t:?}", err_kind(&e).split('.').nth(1).unwrap_or("?"), if concat_collision(&keys, &parts_of(&w)) { ":concat-collision" } else { "" }),
             o => println!("FINDING c09-word-parse-outcome rendered={t:?} outcome={}", o.class()),
         }
     }
